@@ -24,10 +24,14 @@ func hAnyInt(name string) *int {
 // any rule word, numbers present or not with any value, from / from_nested present or not.
 func hLooseRequirement(name string, depth int) *SubmissionRequirement {
 	r := &SubmissionRequirement{Name: name}
+	rules, numbers := 4, 8
+	if depth == 0 && vParam("loosechild", 0) == 0 {
+		rules, numbers = 2, 2 // nested requirement: all | pick, no number | count
+	}
 	vTag("rule")
-	r.Rule = []string{"all", "pick", "", "other"}[vChoice(4)]
+	r.Rule = []string{"all", "pick", "", "other"}[vChoice(rules)]
 	vTag("numbers") // bit 0: count, bit 1: min, bit 2: max
-	n := vChoice(8)
+	n := vChoice(numbers)
 	if n&1 != 0 {
 		r.Count = hAnyInt("count")
 	}
@@ -85,7 +89,7 @@ func H12f() {
 		case 0:
 			def.InputDescriptors = append(def.InputDescriptors, nil)
 		case 1:
-			def.SubmissionRequirements = []*SubmissionRequirement{{Rule: "all", From: "A"}, nil}
+			def.SubmissionRequirements = []*SubmissionRequirement{nil, {Rule: "all", From: "A"}}
 		default:
 			def.SubmissionRequirements = []*SubmissionRequirement{{Rule: "all", FromNested: []*SubmissionRequirement{{Rule: "all", From: "A"}, nil}}}
 		}
@@ -104,7 +108,7 @@ func H12f() {
 		if vBool() {
 			d0.Constraints = &Constraints{}
 		}
-		def := PresentationDefinition{InputDescriptors: []*InputDescriptor{d0, {Id: "d1", Group: []string{"A"}}}}
+		def := PresentationDefinition{InputDescriptors: []*InputDescriptor{d0}}
 		r := hLooseRequirement("r", 1)
 		def.SubmissionRequirements = []*SubmissionRequirement{r}
 		switch p, o := hLooseClass(r); {
